@@ -313,6 +313,14 @@ static void op_openerr(void)
   snprintf(dir,  sizeof(dir),  "h_msafile_%d.d",  (int) getpid());
   full[0] = 0; unlink(name);
   if (!strcmp(what, "dir")) { mkdir(dir, 0700); snprintf(name, sizeof(name), "%s", dir); }
+  else if (!strcmp(what, "gz")) {      /* a regular file h_msafile_<pid>.<sfx>.gz holding hex= (gzip data or not): esl_buffer_Open() pipes it through gzip -dc */
+    FILE *fp;
+    snprintf(name, sizeof(name), "h_msafile_%d.%s.gz", (int) getpid(), sfx ? sfx : "dat");
+    fp = fopen(name, "wb"); if (!fp) { perror("fopen"); exit(3); }
+    if (n > 0 && fwrite(b, 1, (size_t) n, fp) != (size_t) n) { perror("fwrite"); exit(3); }
+    fclose(fp);
+    snprintf(full, sizeof(full), "%s", name);      /* unlinked below */
+  }
   else if (!strcmp(what, "envmissing")) { setenv("H_MSAFILE_ENV", "/nonexistent-h-msafile-a:/nonexistent-h-msafile-b", 1); env = "H_MSAFILE_ENV"; }
   else if (!strcmp(what, "envfile")) {
     FILE *fp; char list[400];
